@@ -298,6 +298,17 @@ func (bn *baseNode) setModTime(mtime time.Time, u avfs.UserReader) bool {
 	return true
 }
 
+// mayChown returns true if the user u may set the owner and the group of the node to uid and gid (-1 : unchanged) :
+// the administrator may, and the owner of the node may leave the owner as it is and set the group
+// to the group of the node or to its own group, as fchown(2).
+func (bn *baseNode) mayChown(uid, gid int, u avfs.UserReader) bool {
+	if u.IsAdmin() {
+		return true
+	}
+
+	return bn.uid == u.Uid() && (uid == -1 || uid == bn.uid) && (gid == -1 || gid == bn.gid || gid == u.Gid())
+}
+
 // setOwner sets the owner of the node.
 func (bn *baseNode) setOwner(uid, gid int) {
 	// a uid or gid of -1 means to not change that value.
